@@ -116,6 +116,37 @@ func c05WhoDisables(w *World, r *Report) {
 				}, true)
 				r.Check(okc, "R05.1", key, pos, "documented exception: stdio+tls has no host name to verify (only in the +tls branch)", "stdio exception is no longer confined to the +tls branch")
 			default:
+				// a helper of the stdio upstream's Connect, called only from its +tls branch
+				hasTls := w.Pkg("internal/util/addr").Types.Scope().Lookup("HasTls")
+				isTlsCond := func(v ssa.Value) bool {
+					c, ok := v.(*ssa.Call)
+					if !ok || !isMethod(sCallee(c), "regexp", "Regexp", "MatchString") || len(c.Call.Args) == 0 {
+						return false
+					}
+					u, ok := c.Call.Args[0].(*ssa.UnOp)
+					if !ok {
+						return false
+					}
+					g, ok := u.X.(*ssa.Global)
+					return ok && g.Object() == hasTls
+				}
+				ncall, all := 0, true
+				for caller := range allModuleFuncs(w, w.SSA()) {
+					for _, c2 := range callsIn(caller) {
+						if c2.Common().StaticCallee() != fn {
+							continue
+						}
+						ncall++
+						ci, _ := c2.(ssa.Instruction)
+						if fnObj(caller) != allowedB || ci == nil || !dominatedByCond(caller, ci, isTlsCond, true) {
+							all = false
+						}
+					}
+				}
+				if ncall > 0 && all {
+					r.Hold("R05.1", key, pos, "documented exception: stdio+tls has no host name to verify (helper called only from the +tls branch of the stdio upstream's Connect)")
+					return
+				}
 				r.Violate("R05.1", key, pos, "certificate verification is disabled by a function that is not allowed to (only ClientConfig.GetTlsConfig under the insecure option, and the stdio+tls exception)")
 			}
 		})
@@ -499,6 +530,35 @@ func c05ConfigProvenance(w *World, r *Report) {
 					}
 				}
 				return false, "value is not a GetTlsConfig() result"
+			case *ssa.Parameter:
+				// handed in by the callers: every static call site must pass a manager configuration
+				pfn := x.Parent()
+				pidx := -1
+				for i, q := range pfn.Params {
+					if q == x {
+						pidx = i
+					}
+				}
+				ncall := 0
+				if helperDepth < 3 {
+					helperDepth++
+					for caller := range allModuleFuncs(w, w.SSA()) {
+						for _, c2 := range callsIn(caller) {
+							if c2.Common().StaticCallee() == pfn && pidx >= 0 && pidx < len(c2.Common().Args) {
+								ncall++
+								if okm, why := fromManager(c2.Common().Args[pidx]); !okm {
+									helperDepth--
+									return false, why
+								}
+							}
+						}
+					}
+					helperDepth--
+				}
+				if ncall == 0 {
+					return false, "parameter of a function without static callers"
+				}
+				continue
 			case *ssa.Const:
 				if x.IsNil() {
 					continue // unset: only with plaintext
